@@ -51,12 +51,17 @@ type sel struct {
 	drm      string // "" | "cbcs" | "cenc"
 	far      bool   // a segment far from availabilityStartTime (numbers close to 2^30)
 	nsegs    int
-	pos      int // >= 0: position in the loop of the first chosen segment
+	pos      int  // >= 0: position in the loop of the first chosen segment
 	past     bool // request only before availability (425) and after the segment end (nothing sleeps)
+	spread   bool // request instants over the whole life of the segment (25/50/75 %, [start+mean duration, end))
 }
 
 // plan builds the scenarios.  The offsets stay inside the property's quantifier: from one sample short of
-// the (shortest) segment down to an eighth of it; chunkdur_ takes several values (it only switches the mode on).
+// the (shortest) segment down to an eighth of it.  chunkdur_ is an independent dimension: according to the
+// documentation and the code comments it only switches the low-latency mode on; the chunk span is what the
+// (advertised) availabilityTimeOffset leaves of the segment.  Besides literal values, "@lt" / "@eq" / "@gt" /
+// "@seg" / "@big" give a chunkdur_ smaller than / equal to / larger than (segment - offset), equal to the
+// segment duration and twice the segment duration (inconsistent pairs included on purpose).
 func plan(env *tl.Env, rng *rand.Rand, thorough bool) []*scen {
 	var sels []sel
 	// offsets relative to the segment duration d (ms) and the sample duration s (ms, rounded up)
@@ -68,6 +73,8 @@ func plan(env *tl.Env, rng *rand.Rand, thorough bool) []*scen {
 	third := func(d, s int64) int64 { return d / 3 }
 	quart := func(d, s int64) int64 { return d / 4 }
 	eighth := func(d, s int64) int64 { return d / 8 }
+	fix := func(ms int64) atoF { return func(d, s int64) int64 { return ms } }
+	lastSel := func() *sel { return &sels[len(sels)-1] }
 	add := func(asset string, audio bool, mode string, snr int, ast int64, f atoF, cd, drm string, far bool, nsegs int) {
 		a := findAsset(env, asset)
 		if a == nil {
@@ -85,13 +92,27 @@ func plan(env *tl.Env, rng *rand.Rand, thorough bool) []*scen {
 		if ato <= 0 || ato >= mn {
 			return
 		}
-		sels = append(sels, sel{asset, audio, mode, snr, ast, ato, cd, drm, far, nsegs, -1, false})
+		leave := mn - ato
+		switch cd {
+		case "@lt":
+			cd = fmtMS((leave + 1) / 2)
+		case "@eq":
+			cd = fmtMS(leave)
+		case "@gt":
+			cd = fmtMS((leave + mn) / 2)
+		case "@seg":
+			cd = fmtMS(mn)
+		case "@big":
+			cd = fmtMS(2 * mn)
+		}
+		sels = append(sels, sel{asset, audio, mode, snr, ast, ato, cd, drm, far, nsegs, -1, false, false})
 	}
 	const bigAST = 1_699_999_000
 	if !thorough {
 		// ~40 real-time requests on assets with segments of about 2 s and below
 		add("testpic_2s", false, "number", -1, 0, short1, "0.04", "", false, 1)
 		add("testpic_2s", false, "number", 5, bigAST, half, "1", "", false, 1)
+		lastSel().spread = true
 		add("testpic_2s", false, "time", -1, 1000, q34, "0.5", "", false, 1)
 		add("testpic_2s", false, "tlnr", 1, 0, eighth, "1.75", "", true, 1)
 		add("testpic_2s", true, "number", -1, 0, short1, "0.02", "", false, 1)
@@ -104,7 +125,7 @@ func plan(env *tl.Env, rng *rand.Rand, thorough bool) []*scen {
 		add("g_sub1k", false, "tlnr", -1, bigAST, quart, "0.3", "", true, 1)
 		// unequal segment durations (1.333 / 2.667 / 2 / 2 s): the shortest segment of the loop
 		add("g_irr90k", false, "number", -1, 0, half, "0.5", "", false, 1)
-		sels[len(sels)-1].pos = 0
+		lastSel().pos, lastSel().spread = 0, true
 		// DRM (chunks are encrypted after chunking; decrypted with mp4ff before comparison): requested after the
 		// segment end only, so these cost no real time
 		add("testpic_2s", false, "number", -1, 0, half, "0.5", "cenc", false, 1)
@@ -114,6 +135,27 @@ func plan(env *tl.Env, rng *rand.Rand, thorough bool) []*scen {
 		for i := 1; i <= 4; i++ {
 			sels[len(sels)-i].past = true
 		}
+		// unequal segment durations, the LONGEST segment of the loop (2.667 s, mean 2 s): request instants over its
+		// whole life, in particular between start + mean duration and its real end
+		add("g_irr90k", false, "number", -1, 0, fix(1000), "1", "", false, 1)
+		lastSel().pos, lastSel().spread = 1, true
+		add("g_irr90k", true, "number", 1, bigAST, fix(1200), "@eq", "", false, 1)
+		lastSel().pos, lastSel().spread = 1, true
+		// (offset, chunkdur_) pairs that do not fit together: chunkdur_ larger than what the offset leaves, equal to the
+		// segment, larger than the segment, smaller.  0.48 s segments waited for; 2 s segments after their end only
+		add("g_sub1k", false, "number", 1, 1000, q34, "@gt", "", false, 1)
+		lastSel().spread = true
+		add("g_sub1k", false, "tlnr", -1, 0, half, "@lt", "", false, 1)
+		add("testpic_2s", false, "number", -1, 0, half, "@gt", "", false, 1)
+		lastSel().past = true
+		add("testpic_2s", true, "number", 1, bigAST, q34, "@gt", "", false, 1)
+		lastSel().past = true
+		add("testpic_2s", false, "time", -1, 0, q34, "@seg", "", false, 1)
+		lastSel().past = true
+		add("testpic_2s", false, "tlnr", 5, 1000, quart, "@big", "", false, 1)
+		lastSel().past = true
+		add("g_1001tl", false, "number", -1, 0, short2, "@gt", "", false, 1)
+		lastSel().past = true
 	} else {
 		fs := []atoF{short1, short2, q34, half, third, quart, eighth}
 		cds := []string{"0.04", "0.1", "0.25", "0.5", "1", "1.75", "3"}
@@ -147,6 +189,40 @@ func plan(env *tl.Env, rng *rand.Rand, thorough bool) []*scen {
 			add("testpic_2s", false, "number", 1, bigAST, short1, "0.04", drm, false, 1)
 			add("testpic_2s", true, "number", -1, 0, quart, "0.5", drm, false, 1)
 			add("g_irr90k", false, "number", -1, 0, q34, "0.5", drm, false, 1)
+		}
+		// every scenario above: request instants over the whole life of the segment
+		for k := range sels {
+			sels[k].spread = true
+		}
+		// the (offset, chunkdur_) product, inconsistent pairs included.  Waited for on the 0.48 s asset and on the
+		// non-uniform one; after the segment end (no waiting) elsewhere
+		pi := 0
+		for _, f := range []atoF{short2, q34, half, quart} {
+			for _, cd := range []string{"@lt", "@eq", "@gt", "@seg", "@big"} {
+				mode := modes[pi%3]
+				add("g_sub1k", false, mode, []int{-1, 1, 5}[pi%3], []int64{0, 1000, bigAST}[pi%3], f, cd, "", false, 1)
+				lastSel().spread = true
+				add("g_irr90k", false, mode, -1, 0, f, cd, "", false, 2)
+				lastSel().spread = true
+				add("g_irr90k", true, []string{"number", "tlnr"}[pi%2], 1, bigAST, f, cd, "", false, 1)
+				lastSel().spread = true
+				add("testpic_2s", false, mode, -1, 0, f, cd, "", false, 1)
+				lastSel().past = true
+				add("testpic_2s", true, "number", 5, bigAST, f, cd, "", false, 1)
+				lastSel().past = true
+				add("g_alt12800", false, mode, 1, 1000, f, cd, "", false, 2)
+				lastSel().past = true
+				add("testpic_8s", false, "number", -1, 0, f, cd, "", false, 1)
+				lastSel().past = true
+				pi++
+			}
+		}
+		for _, x := range []struct {
+			ato int64
+			cd  string
+		}{{7000, "2"}, {7500, "1"}, {6000, "4"}, {7000, "1"}, {4000, "1000"}} {
+			add("testpic_8s", false, "number", -1, 0, fix(x.ato), x.cd, "", false, 1)
+			lastSel().past = true
 		}
 	}
 
@@ -213,6 +289,21 @@ func plan(env *tl.Env, rng *rand.Rand, thorough bool) []*scen {
 			addI("avail", av)
 			addI("between", av+1+r.Int63n(span))
 			addI("after", endMS+1)
+			if x.spread {
+				// over the whole life of the segment; instants before the advertised availability time are
+				// answered 425 (and cost nothing)
+				startMS := tl.StartTicks(a.Video, n) * 1000 / a.Video.TS
+				d := endMS - startMS
+				addI("q25", startMS+d/4)
+				addI("q50", startMS+d/2)
+				addI("q75", startMS+d*3/4)
+				meanMS := a.Video.L * 1000 / a.Video.TS / N
+				if startMS+meanMS+1 < endMS-1 {
+					// a segment longer than the mean segment duration of the asset
+					addI("latewin", startMS+meanMS+1)
+					addI("latewin", startMS+meanMS+1+r.Int63n(endMS-1-(startMS+meanMS+1)))
+				}
+			}
 			if thorough {
 				addI("avail", av+1)
 				addI("between", av+1+r.Int63n(span))
